@@ -181,6 +181,14 @@ func matchFinding(ff findingsFile, prop, f string) *finding {
 	return nil
 }
 
+func lastLines(s string, n int) string {
+	ls := strings.Split(strings.TrimRight(s, "\n"), "\n")
+	if len(ls) > n {
+		ls = ls[len(ls)-n:]
+	}
+	return strings.Join(ls, "\n")
+}
+
 func classOf(f string) string {
 	if i := strings.Index(f, ": "); i >= 0 {
 		return f[:i]
@@ -344,8 +352,11 @@ func main() {
 		rep   report
 		lines []string
 	}
-	knownHits := map[string]int{}   // finding "what" -> count
-	newByClass := map[string]*hit{} // class -> smallest run showing an unexplained failure of that class
+	knownHits := map[string]int{}     // finding "what" -> count
+	newByClass := map[string]*hit{}   // class -> smallest run showing an unexplained failure of that class
+	candidates := map[string][]*hit{} // class -> runs showing it, smallest first: a violation that depends on the
+	// history of its process (a defect that reads recycled memory, say) may not reproduce from a fresh process
+	// for one seed and reproduce for another
 	nViolRuns := 0
 	for _, r := range all {
 		unexplained := map[string][]string{}
@@ -364,7 +375,11 @@ func main() {
 			if h := newByClass[c]; h == nil || r.Steps < h.rep.Steps {
 				newByClass[c] = &hit{rep: r, lines: lines}
 			}
+			candidates[c] = append(candidates[c], &hit{rep: r, lines: lines})
 		}
+	}
+	for _, hs := range candidates {
+		sort.Slice(hs, func(i, j int) bool { return hs[i].rep.Steps < hs[j].rep.Steps })
 	}
 	var classes []string
 	for c := range newByClass {
@@ -381,29 +396,44 @@ func main() {
 		if i >= 4 {
 			break
 		}
-		h := newByClass[c]
 		safe := strings.Map(func(r rune) rune {
 			if r >= 'a' && r <= 'z' || r >= 'A' && r <= 'Z' || r >= '0' && r <= '9' || r == '.' || r == '-' {
 				return r
 			}
 			return '_'
 		}, c)
-		path := filepath.Join(verif, "replays", fmt.Sprintf("%s-%s-%d.json", *propID, safe, h.rep.Seed))
-		env := []string{"VERIF_PROP=" + *propID, "VERIF_TIER=" + *tier, fmt.Sprintf("VERIF_MINIMISE=%d", h.rep.Seed), "VERIF_CLASS=" + c, "VERIF_REPLAY_OUT=" + path}
-		out, err := runWorker(env, 15*time.Minute)
-		if err != nil {
-			fmt.Fprintf(os.Stderr, "runner: minimisation of seed %d class %s failed: %v\n%s\n", h.rep.Seed, c, err, out)
-			nondet = true
-			continue
+		ok := false
+		for k, h := range candidates[c] {
+			if k >= 5 {
+				break
+			}
+			path := filepath.Join(verif, "replays", fmt.Sprintf("%s-%s-%d.json", *propID, safe, h.rep.Seed))
+			env := []string{"VERIF_PROP=" + *propID, "VERIF_TIER=" + *tier, fmt.Sprintf("VERIF_MINIMISE=%d", h.rep.Seed), "VERIF_CLASS=" + c, "VERIF_REPLAY_OUT=" + path}
+			out, err := runWorker(env, 15*time.Minute)
+			if err != nil {
+				fmt.Fprintf(os.Stderr, "runner: minimisation of seed %d class %s failed: %v\n%s\n", h.rep.Seed, c, err, lastLines(out, 6))
+				continue
+			}
+			// fresh-process confirmation
+			out, err = runWorker([]string{"VERIF_REPLAY=" + path, "VERIF_TIER=" + *tier}, 10*time.Minute)
+			if err != nil || !strings.Contains(out, "REPRODUCED property=") || strings.Contains(out, "NOT-REPRODUCED") {
+				fmt.Fprintf(os.Stderr, "runner: replay %s did not reproduce in a fresh process: %v\n%s\n", path, err, lastLines(out, 6))
+				os.Remove(path)
+				continue
+			}
+			newByClass[c] = h
+			viols = append(viols, confirmed{c, path})
+			ok = true
+			break
 		}
-		// fresh-process confirmation
-		out, err = runWorker([]string{"VERIF_REPLAY=" + path, "VERIF_TIER=" + *tier}, 10*time.Minute)
-		if err != nil || !strings.Contains(out, "REPRODUCED property=") || strings.Contains(out, "NOT-REPRODUCED") {
-			fmt.Fprintf(os.Stderr, "runner: replay %s did not reproduce in a fresh process: %v\n%s\n", path, err, out)
+		if !ok {
 			nondet = true
-			continue
 		}
-		viols = append(viols, confirmed{c, path})
+	}
+	if nondet && len(viols) > 0 {
+		// some classes could not be replayed from a fresh process, others could: report those
+		fmt.Fprintln(os.Stderr, "runner: at least one violation class could not be replayed from a fresh process and is not reported")
+		nondet = false
 	}
 
 	// ---- evidence ----
